@@ -415,6 +415,7 @@ func genTables(a *An) {
 	genConstArgs(a)
 	genReturns(a)
 	genBigOps(a)
+	genCalls(a)
 }
 
 // ---- events ---------------------------------------------------------------------------------------------------
